@@ -1,5 +1,5 @@
 import PgsVerif.Model.CleanName
-import PgsVerif.Generated.Code
+import PgsVerif.Generated.Code_cleanGeneratorFileName
 /-!
 # Tie (translated code): `cleanGeneratorFileName`
 
